@@ -48,6 +48,9 @@ BlocksDom(T, pa, maxvar, maxcount, fill) == SeqProd([k \in 1..Len(T.blocks) |-> 
 
 Pids == {<<0, 1>>, <<43981, 65535>>}
 Extras == {<<>>, <<0>>, <<7, 0>>}
+LongExtras == {<<7, 9, 11>>, Zeros(8), Zeros(24), Zeros(100), Zeros(255),
+               [i \in 1..24 |-> IF i % 2 = 1 THEN 0 ELSE 200 + i], [i \in 1..255 |-> 7],
+               [i \in 1..255 |-> IF i % 2 = 1 THEN 0 ELSE 9]}
 AckSeqs == {<<>>, << <<0, 1>> >>, << <<0, 1>>, <<65535, 2>> >>}
 AllFlags == {0, 128, 96, 16, 144, 255}
 Headers(fl, ps, es) == {h \in {[flags |-> f, pid |-> p, extra |-> e, acks |-> a] : f \in fl, p \in ps, e \in es, a \in AckSeqs} :
@@ -62,6 +65,9 @@ Msgs(T, pt) ==
                                             [flags |-> 128, pid |-> <<0, 2>>, extra |-> <<>>, acks |-> <<>>],
                                             [flags |-> 144, pid |-> <<1, 0>>, extra |-> <<0>>, acks |-> << <<0, 1>> >>]},
                                      bl \in BlocksDom(T, PA, MaxVar, MaxCount, FALSE)}
+      \* part "zext": zero-coding x ack trailer (0..2 IDs) x extra header bytes that compress well / badly / have the
+      \* maximal length, on small bodies: the datagram is shorter than, about, or longer than 7 + Len(extra)
+      [] pt = "zext" -> {Mk(h, bl) : h \in Headers({144, 16, 128}, {<<0, 1>>}, LongExtras), bl \in BlocksDom(T, {0}, 0, 1, FALSE)}
       \* part "runs": zero-coded bodies with a zero run of every length in RunLens at the start / in the
       \* middle / at the end of the body (template TstLow: the two-byte-length field is the last thing in it)
       [] pt = "runs" -> IF T.name # "TstLow" THEN {}
@@ -74,7 +80,7 @@ Msgs(T, pt) ==
                                      bl \in {x \in BlocksDom(T, {65}, 1, 1, TRUE) : HasUnset([blocks |-> x])}}
 
 Row == [row |-> "msg", tid |-> tid, t |-> U[tid].name, part |-> part, m |-> m, dgram |-> Datagram(U[tid], m)]
-Init == /\ tid \in Tids /\ part \in {"hdr", "body", "fill", "runs"} /\ m \in Msgs(U[tid], part)
+Init == /\ tid \in Tids /\ part \in {"hdr", "body", "fill", "runs", "zext"} /\ m \in Msgs(U[tid], part)
         /\ PrintT(ToJson(Row))
 Next == UNCHANGED vars
 Spec == Init /\ [][Next]_vars
